@@ -65,3 +65,24 @@ fn c01_string() {
     match r { Ok(w) => { assert!(w.len() == n && w.as_bytes() == &e[.. n]); assert!(d.position() == m) } Err(_) => assert!(false) }
     kani::cover!(n == 3);
 }
+
+// C strings are byte strings INCLUDING the terminating NUL: the head width changes when content + NUL crosses 23/24
+// @harness name=c07_cstr_boundary props=C07,C03,C01 kind=bounded features=alloc bound="CStr with 22, 23 and 24 content bytes (head boundary 23/24 of content + NUL)"
+#[kani::proof]
+#[kani::unwind(28)]
+fn c07_cstr_boundary() {
+    let which: u8 = kani::any();
+    let raw = [b'a'; 26];
+    let n = match which { 0 => 22usize, 1 => 23, _ => 24 };           // content bytes
+    let mut bytes = raw;
+    bytes[n] = 0;
+    let s = match core::ffi::CStr::from_bytes_with_nul(&bytes[.. n + 1]) { Ok(s) => s, Err(_) => { assert!(false); return } };
+    let init: [u8; 32] = kani::any();
+    let mut enc = Encoder::new(Cursor::new(init));
+    assert!(s.encode(&mut enc, &mut ()).is_ok());
+    let m = enc.into_writer().position();
+    let total = n + 1;
+    assert!(m == total + if total < 24 { 1 } else { 2 }, "C string: byte string of content + NUL with the shortest head");
+    assert!(s.cbor_len(&mut ()) == m, "cbor_len != bytes written");
+    kani::cover!(which == 1);
+}
